@@ -93,12 +93,12 @@ def proj_write(op, out):
 
 TRIVIAL = {'init', 'dump', 'wf', 'lookup_all', 'reset_world'}
 
-def correspondence(ctx, session_fns, project, oracle, what, stream_name, driver='drv_api.c', impl_env=None):
+def correspondence(ctx, session_fns, project, oracle, what, stream_name, driver='drv_api.c', impl_env=None, extra=()):
     """Run each session (a callable (impl, rng, stats) driving the harness interactively) on the
     implementation, replay the recorded ops on the model, compare the projected outputs and
     evaluate the direct oracle on the implementation's outputs."""
     work = ctx['work']
-    exe, log = vlib.build_harness(os.path.join(work, 'h'), driver)
+    exe, log = vlib.build_harness(os.path.join(work, 'h'), driver, extra)
     if not exe:
         ctx['violation']('harness-build', 'the harness no longer compiles against /repo', {'log': log[-3000:]}, False)
         return
@@ -263,7 +263,7 @@ def run_C19(ctx):
 
 def proj_read(op, out):
     w = first_word(op)
-    if w in ('read_string', 'read_stream', 'read_file'):
+    if w in ('read_string', 'read_stream', 'read_file', 'read_chunked'):
         return out.split(' ')[0]
     if w in ('err', 'dump', 'wf', 'write'):
         return out
@@ -299,6 +299,151 @@ def run_C08(ctx):
         e = {}
         correspondence(ctx, [streams.sess_c08(lits[i:i + 5000], e)], proj_read, streams.oracle_c08(e), 'C08 numeric literal exactness', 'literals')
 
+def proj_err(op, out):
+    w = first_word(op)
+    if w in ('read_string', 'read_stream', 'read_file', 'write_file'):
+        return out.split(' ')[0]
+    if w == 'err':
+        return out
+    return None
+
+def run_C09(ctx):
+    import itertools
+    events = streams.c09_events()
+    L = 3 if ctx['tier'] == 'quick' else 4
+    seqs = []
+    for l in range(1, L + 1):
+        seqs += list(itertools.product(range(len(events)), repeat=l))
+    chunk = 3000
+    for i in range(0, len(seqs), chunk):
+        e = {}
+        correspondence(ctx, [streams.sess_c09(seqs[i:i + chunk], events, e)], proj_err, streams.oracle_c09(e),
+                       'C09 error information', 'histories<=%d' % L)
+    ctx['cov']['exhaustive'] = True
+    ctx['cov']['exhaustive_histories'] = {'events': [e[0] for e in events], 'max_len': L, 'sequences': len(seqs)}
+
+def run_C12(ctx):
+    rng = Rng(ctx['seed'] * 15485863 + 12)
+    expect = {}
+    def fn(impl, r, stats):
+        texts = [b'', b'a = 1;', b'a = 1; s = "hello"; g = { x = 1.5; l = (1, 2, "z"); };']
+        # outputs larger than the stdio buffer (4 KiB) and than 8 KiB
+        texts.append(b''.join(b'k%d = "%s";\n' % (i, b'x' * 50) for i in range(100)))
+        texts.append(b''.join(b'k%d = "%s";\n' % (i, b'y' * 90) for i in range(120)))
+        for text in texts:
+            for fsync in (0, 1):
+                base = impl.do('wfcase %s %d none 0' % (hexs(text), fsync))
+                n = int(base.split(' ')[-1]) if base.split(' ')[-1].isdigit() else 0
+                expect[len(impl.ops) - 1] = ('1', n)
+                if ctx['tier'] == 'thorough' and n <= 6000:
+                    offs = list(range(0, n + 2))
+                else:
+                    offs = sorted(set([0, 1, 2, n // 2, max(n - 2, 0), max(n - 1, 0), n, n + 1, 4095, 4096, 4097, 8191, 8192, 8193] +
+                                      [r.below(n + 1) for _ in range(25)]))
+                for k in offs:
+                    impl.do('wfcase %s %d fsize %d' % (hexs(text), fsync, k))
+                    expect[len(impl.ops) - 1] = ('1' if k >= n else '0', n)
+                    stats['c12:fsize:' + ('ok' if k >= n else 'fail')] = stats.get('c12:fsize:' + ('ok' if k >= n else 'fail'), 0) + 1
+                for kind, want in (('devfull', '1' if (n == 0 and not fsync) else '0'), ('nodir', '0'), ('isdir', '0'), ('readonly', '0'),
+                                   ('fsyncfail', '0' if fsync else '1'), ('fclosefail', '0')):
+                    impl.do('wfcase %s %d %s 0' % (hexs(text), fsync, kind))
+                    expect[len(impl.ops) - 1] = (want, n)
+                    stats['c12:' + kind] = stats.get('c12:' + kind, 0) + 1
+    def oracle(ops, outs):
+        for i, (want, n) in expect.items():
+            if i >= len(outs):
+                continue
+            f = outs[i].split(' ')
+            if f[0] != want:
+                return i, 'config_write_file returned %s where the injected fault requires %s (%s)' % (f[0], want, ops[i].split(' ', 2)[2])
+            if f[0] == '1' and 'devfull' not in ops[i]:
+                disk = '' if f[2] in ('=', '-') else f[2]
+                if len(disk) // 2 != n or f[1] != '0':
+                    return i, 'success reported but the file holds %d of %d bytes (error type %s)' % (len(disk) // 2, n, f[1])
+            if f[0] == '0' and f[1] != '1':
+                return i, 'failure reported with error type %s instead of CONFIG_ERR_FILE_IO' % f[1]
+        return None
+    correspondence(ctx, [fn], proj_full, oracle, 'C12 write_file completeness', 'io-faults', driver='drv_io.c',
+                   extra=('-Wl,--wrap=fsync', '-Wl,--wrap=fclose'))
+
+def make_comma_locale(work):
+    """synthesise a comma-decimal locale offline: copy C.utf8 and patch the radix byte of LC_NUMERIC"""
+    src = '/usr/lib/locale/C.utf8'
+    dst = os.path.join(work, 'locale', 'xx_XX.utf8')
+    if not os.path.isdir(src):
+        return None
+    shutil.copytree(src, dst)
+    p = os.path.join(dst, 'LC_NUMERIC')
+    b = bytearray(open(p, 'rb').read())
+    idx = b.find(b'.')
+    if idx < 0:
+        return None
+    b[idx] = 0x2c
+    open(p, 'wb').write(b)
+    return os.path.join(work, 'locale')
+
+def run_C15(ctx):
+    locpath = make_comma_locale(ctx['work'])
+    if not locpath:
+        ctx['violation']('check-error', 'cannot synthesise a comma-decimal locale in this sandbox', {}, False)
+        return
+    rng = Rng(ctx['seed'] * 32452843 + 15)
+    n = 40 if ctx['tier'] == 'quick' else 600
+    floats = [b'1.5', b'-2.25', b'0.1', b'1e10', b'3.14159', b'1e-5', b'123456789.125', b'.5', b'5.', b'1.7976931348623157e308', b'4.9e-324']
+    def fn(impl, r, stats):
+        for i in range(n):
+            k = r.range(1, 4)
+            text = b''.join(b'f%d = %s;\n' % (j, r.choice(floats)) for j in range(k)) + b'a = [ 0.5, 2.5e3 ]; l = ( 1.25, "1,5", 7 );\n'
+            if r.chance(1, 5):
+                text = gen_text.rand_valid_text(r)
+            if b'\x00' in text:
+                continue
+            prec = r.choice([b'', b''])
+            for g in (0, 1):
+                for t in (0, 1):
+                    e = r.choice(['string', 'stream', 'file'])
+                    out = impl.do('loccase %d %d %s %s' % (g, t, e, hexs(text)))
+                    stats['c15:g%dt%d:%s' % (g, t, e)] = stats.get('c15:g%dt%d:%s' % (g, t, e), 0) + 1
+    def oracle(ops, outs):
+        base = {}
+        for i, (o, r) in enumerate(zip(ops, outs)):
+            f = r.split(' ')
+            if len(f) != 8:
+                return i, 'unexpected harness answer %r' % r
+            w = o.split(' ')
+            if f[4] != '1':
+                return i, "the calling thread's locale was replaced"
+            if f[5] != '1':
+                return i, 'the process-wide locale was changed'
+            if f[6] != f[7]:
+                return i, 'radix character in effect changed from %s to %s across the calls' % (f[6], f[7])
+            want_radix = '44' if (w[2] == '1' or w[1] == '1') else '46'
+            if f[6] != want_radix:
+                return i, 'the harness set-up did not take effect (radix %s, expected %s)' % (f[6], want_radix)
+            if f[0] == '1' and (f[2] != '1' or f[3] != '1'):
+                return i, 'written file was not read back to the same text under this locale'
+            key = w[4]
+            if key in base and base[key] != (f[0], f[1]):
+                return i, 'result or written text differs between locale set-ups'
+            base.setdefault(key, (f[0], f[1]))
+        return None
+    correspondence(ctx, [fn], proj_full, oracle, 'C15 locale independence', 'locales', driver='drv_loc.c', impl_env={'LOCPATH': locpath, 'ASAN_OPTIONS': 'detect_leaks=0'})  # glibc's locale loader keeps allocations alive
+
+def run_C20(ctx):
+    rng = Rng(ctx['seed'] * 49979687 + 20)
+    texts = streams.c20_texts(rng, ctx['tier'])
+    # plus small random valid and mutated texts
+    small = [gen_text.rand_valid_text(rng) for _ in range(60 if ctx['tier'] == 'quick' else 600)]
+    small += [gen_text.mutate(rng, t) for t in small[:len(small) // 2]]
+    small = [t for t in small if b'\x00' not in t]
+    chunk = 40
+    allt = texts + small
+    for i in range(0, len(allt), chunk):
+        groups = []
+        correspondence(ctx, [streams.sess_c20(allt[i:i + chunk], groups)], proj_read, streams.oracle_c20(groups),
+                       'C20 entry-point equivalence', 'entries')
+    ctx['cov']['boundary_texts'] = len(texts)
+
 COMMON_ASSUMPTIONS = [
     'NULL config_t*/config_setting_t*, dangling handles and non-NUL-terminated strings are out of contract',
     'ctype classification is that of the C/UTF-8 locales',
@@ -306,6 +451,10 @@ COMMON_ASSUMPTIONS = [
 ]
 
 REGISTRY = {
+    'C20': dict(modules=['LibconfigModel.Properties.C20'], run=run_C20, assumptions=COMMON_ASSUMPTIONS + ['the pointer arithmetic of yy_get_next_buffer (generated flex code) is outside the model; it is exercised at the 8/16/32 KiB boundaries under ASan']),
+    'C15': dict(modules=['LibconfigModel.Properties.C15'], run=run_C15, assumptions=COMMON_ASSUMPTIONS + ['the comma-decimal locale is synthesised from C.utf8 by patching the radix byte of LC_NUMERIC (the sandbox has no other locales)', 'glibc newlocale with a NULL base yields the "C" locale in every category']),
+    'C12': dict(modules=['LibconfigModel.Properties.C12'], run=run_C12, assumptions=COMMON_ASSUMPTIONS + ['stdio reports a failed write(2) through fflush()/ferror(); a successful fclose() means the kernel accepted all data']),
+    'C09': dict(modules=['LibconfigModel.Properties.C09'], run=run_C09, assumptions=COMMON_ASSUMPTIONS),
     'C08': dict(modules=['LibconfigModel.Properties.C08'], run=run_C08, assumptions=COMMON_ASSUMPTIONS),
     'C02': dict(modules=['LibconfigModel.Properties.C02'], run=run_C02, assumptions=COMMON_ASSUMPTIONS),
     'C04': dict(modules=['LibconfigModel.Properties.C04'], run=run_C04, assumptions=COMMON_ASSUMPTIONS),
